@@ -417,3 +417,20 @@ def install_ouroboros_stubs(eng):
         fr = deref_all(a[0])
         return e.call_closure(a[1], [Ref(fr.f, 1)])
     eng.stubs['FilesRows::with_rows_mut'] = with_rows_mut
+
+
+def install_rdfs_stubs(eng):
+    """ouroboros-generated builder/accessor code of paths::RecursiveDoFilesState replaced by a plain record (no crate logic there)"""
+    def build(e, ci, a, sp):
+        b = a[0]
+        np = new_cell(b.f[0])
+        dir_bits = e.call_closure(b.f[1], [np])
+        ddf = e.call_closure(b.f[2], [np])
+        return Struct('RecursiveDoFilesState', [ddf, dir_bits, np])
+    eng.stubs['RecursiveDoFilesStateBuilder::build'] = build
+
+    def with_mut(e, ci, a, sp):
+        st = deref_all(a[0])
+        fields = Struct('BorrowedMutFields', [Ref(st.f, 0), Ref(st.f, 1), st.f[2]])
+        return e.call_closure(a[1], [fields])
+    eng.stubs['RecursiveDoFilesState::with_mut'] = with_mut
